@@ -3,7 +3,7 @@
    Every model function returns Ok / Err / Panic; these theorems say the Panic result is unreachable. *)
 From stdpp Require Import gmap.
 From DS Require Import Base RepoConstants Decimal StreamValue Aggregators Outcome OutcomeCodec ObservationCodec MercuryAgg MercuryReport
-  TextForms EvmInt EvmCodecs EvmSpec OutcomeCodecProofs EvmCodecProofs NoPanicProofs.
+  TextForms EvmInt EvmCodecs EvmSpec PluginReports OutcomeCodecProofs EvmCodecProofs NoPanicProofs ReportsNoPanic.
 
 Example C11_gen_widths_complete : evm_type_widths = solidity_widths.
 Proof. reflexivity. Qed.
@@ -39,6 +39,34 @@ Theorem C11_aggregators_no_panic : forall vs f,
   is_panic (median_agg vs f) = false /\ is_panic (quote_agg vs f) = false /\ is_panic (mode_agg vs f) = false.
 Proof. intros vs f. exact (conj (median_agg_no_panic vs f) (conj (quote_agg_no_panic vs f) (mode_agg_no_panic vs f))). Qed.
 Print Assumptions C11_aggregators_no_panic.
+
+(* ---- LLO Reports as a whole: ANY outcome bytes (well-formed bytes), any sequence number, any configuration ----
+   `codecs` is the table of registered report codecs, `retire_enc` the (external, JSON) retirement-report codec.
+   Reports decodes the bytes, builds one report per reportable channel, hands each to its codec; a missing codec or
+   an encoding error drops that report.  It cannot panic unless a codec does — and the outcome decoder only ever
+   hands codecs values whose decimals have int32 exponents (C11_decoded_reports_wf), which is what the in-repo
+   codecs' own no-panic theorems assume. *)
+Theorem C11_decoded_reports_wf : forall pver bs o cf seq r,
+  decode_outcome pver bs = Ok o -> bok bs -> In r (snd (reports_of cf seq o)) -> values_wf r = true.
+Proof. exact decoded_reports_wf. Qed.
+Print Assumptions C11_decoded_reports_wf.
+Theorem C11_reports_no_panic : forall codecs retire_enc (good : report -> Prop),
+  (forall fmt enc r, codecs fmt = Some enc -> fmt = cd_fmt (r_def r) -> values_wf r = true -> good r -> is_panic (enc (r_def r) r) = false) ->
+  (forall va, is_panic (retire_enc va) = false) ->
+  forall cf seq bs, bok bs ->
+  (forall o r, decode_outcome (c_pver cf) bs = Ok o -> In r (snd (reports_of cf seq o)) -> good r) ->
+  is_panic (plugin_reports codecs retire_enc cf seq bs) = false.
+Proof. exact plugin_reports_no_panic. Qed.
+Print Assumptions C11_reports_no_panic.
+(* instance: the in-repo premium-legacy and streamlined EVM codecs (options obtained from the definition by any
+   function), outside known finding F4 *)
+Theorem C11_reports_no_panic_repo_codecs : forall fmt_legacy fmt_streamlined legacy_opts_of streamlined_opts_of retire_enc,
+  (forall va, is_panic (retire_enc va) = false) ->
+  forall cf seq bs, bok bs ->
+  (forall o r, decode_outcome (c_pver cf) bs = Ok o -> In r (snd (reports_of cf seq o)) -> outside_f4 fmt_legacy legacy_opts_of r) ->
+  is_panic (plugin_reports (repo_codecs fmt_legacy fmt_streamlined legacy_opts_of streamlined_opts_of) retire_enc cf seq bs) = false.
+Proof. intros. apply repo_reports_no_panic; try assumption. exact C11_gen_widths_complete. Qed.
+Print Assumptions C11_reports_no_panic_repo_codecs.
 
 (* ---- Mercury v1-v4 Report: any observations, any previous report; only an external codec could panic ---- *)
 Theorem C11_mercury234_no_panic : forall ver c prev replen obs, (forall rf, is_panic (replen rf) = false) ->
